@@ -65,7 +65,7 @@ def evaluate(plan, ctx):
     return Result(big and tq, ev)
 
 
-SUBCHECKS = [SubCheck("burst", strategy, evaluate, quick=2500, thorough=40000)]
+SUBCHECKS = [SubCheck("burst", strategy, evaluate, quick=5000, thorough=40000)]
 KNOWN = {}
 
 MANIFEST = {
